@@ -281,6 +281,18 @@ def run(ctx: Ctx):
     if n_loads < 2:
         ctx.error(f"only {n_loads} scalar value loads found in assign_attr_from_defs")
 
+    # ---------------- R5 the typed decoder recurses into grouped values only -----------------
+    # assign_attr_from_defs treats the value of an AVP as a list of member AVPs exactly when the
+    # definition has a container class; the dictionary decides what the value really is.  A
+    # definition with a container whose (code, vendor) is a scalar AVP in the dictionary makes
+    # the decoder iterate over an int / str / bytes: TypeError (or AttributeError) out of
+    # Message.from_bytes for a well-formed message.
+    from . import c03 as _c03
+    ctx.include(_c03.run, {"C03-R2"}, "C04-R5",
+                "a definition has a container class exactly when the dictionary types its AVP as "
+                "Grouped (the typed decoder recurses into the value on the definition's word)",
+                floor=2000, select=lambda fd: "has container" in fd.message)
+
 
 def _calcsize(fmt: str):
     try:
